@@ -1,14 +1,20 @@
 P = "github.com/tochemey/goakt/v4/breaker."
+ADV = "(*" + P + "bucketWindow).advanceLocked"
+HOPTS = {"feasibility": False, "small_int_float": 8, "fresh_solver": True, "loop_bounds": {ADV: 4}}
 CHECK = {
     "id": "C47",
     "packages": ["./breaker"],
     "harness": ["breaker/zz_verif_c47.go"],
     "entries": [
-        {"fn": P + "vC47_history", "cases": {"buckets": [1, 3], "bucketNanos": [10], "halfOpenMax": [1], "calls": [3], "nested": [0, 1]}},
+        {"fn": P + "vC47_history", "opts": HOPTS,
+         "cases_quick": {"buckets": [1, 3], "bucketNanos": [16], "halfOpenMax": [1], "calls": [3], "nested": [0, 1]},
+         "cases_thorough": {"buckets": [1, 2, 3], "bucketNanos": [1, 16], "halfOpenMax": [1, 2], "calls": [4], "nested": [0, 1]},
+         "cover_optional": ("closed-again", "rejected-halfopen-full", "half-open", "opened", "rejected-open")},
         {"fn": P + "vC47_buckets", "cases": {"buckets": [1, 2, 3], "bucketNanos": [1, 10]}},
         {"fn": P + "vC47_sanitize"},
         {"fn": P + "vC47_probes", "replay": "model-only", "cases": {"halfOpenMax": [1, 2]}, "opts": {"rounds": 3}},
     ],
+    "timeout_ms": {"quick": 400000, "thorough": 3000000},
     "opts": {"unwind": 10, "select_precise": True},
     "explanation": "",
     "bounds": {},
